@@ -404,7 +404,9 @@ func runC15(t *testing.T, run *mc.Run) int {
 	for _, reverse := range []bool{false, true} {
 		n++
 		var twoHeld string
+		hookCalls := 0
 		common.VerifIterOrder = func(_ any, k int) []int {
+			hookCalls++
 			o := make([]int, k)
 			for i := range o {
 				o[i] = i
@@ -432,12 +434,29 @@ func runC15(t *testing.T, run *mc.Run) int {
 			}
 			r.offerLine(auditgen.Simple("USER_ACCT", 1700000230, 7030, "9", "9", "success").Recs[0].Line + "\n")
 			vsleep(3 * time.Second)
+			hookBefore := hookCalls
 			r.offerLogin(mkLogin(bindPID, "1"))
 			vsleep(time.Second)
+			orderForced := hookCalls > hookBefore // the correlator asked the hook in which order to visit its sessions
 			if os.Getenv("VERIF_DEBUG") != "" {
 				fmt.Println("DEBUG twoHeld: returned", r.returned, "err", r.ret, "writes", len(r.w.writes))
 			}
+			failing := "701"
+			if reverse {
+				failing = "702"
+			}
+			evs, _ := r.w.events()
+			onlyHealthy := len(evs) > 0
+			for _, e := range evs {
+				if e.Metadata.AuditID == failing {
+					onlyHealthy = false
+				}
+			}
 			switch {
+			case !r.returned && onlyHealthy && !orderForced:
+				// the correlator did not ask the iteration hook (an implementation that keeps its sessions in a plain
+				// map) and only events of the OTHER session were written: it visited that one first, the login
+				// released it, nothing failed - the state this cell is about was not reached; not judged
 			case !r.returned:
 				twoHeld = fmt.Sprintf("the release of the session visited first failed, but the audit processor keeps running (%d events written)", len(r.w.writes))
 			case r.ret == nil:
